@@ -23,6 +23,9 @@ class C11(Hist1Prop):
     FIELDS = {"bins", "freq", "err2", "under", "over", "total", "dtype", "keep"}
 
     def gen_case(self, rng, k, tier):
+        if rng.random() < 0.45:
+            from . import nd_parts
+            return nd_parts.c11_gen(rng)
         pairs, t = gen1.rising_bins(rng)
         init = rand_hist_op(rng, pairs)
         if rng.random() < 0.15:
@@ -67,7 +70,7 @@ class C11(Hist1Prop):
     def run_impl(self, case):
         from .. import impl1
         op = case["ops"][1]
-        if op["op"] != "invalid":
+        if op["op"] != "invalid" or case.get("kind") == "histn":
             return super().run_impl(case)
         s = impl1.Store()
         log = []
@@ -86,6 +89,9 @@ class C11(Hist1Prop):
         return []
 
     def oracle(self, case, io):
+        if case.get("kind") == "histn":
+            from . import nd_parts
+            return nd_parts.c11_oracle(case, io)
         outs, ops = io["outs"], case["ops"]
         fails = []
         if outs[0]["ret"] == "REFUSED":
@@ -158,6 +164,8 @@ class C11(Hist1Prop):
 
     def nontrivial(self, case, io):
         o = io["outs"]
+        if case.get("kind") == "histn":
+            return o[1]["ret"] == "ok" and len(o[1]["regs"]) > 0 and o[1]["regs"][-1] is not None and o[1]["regs"][-1]["shape"] != o[0]["regs"][0]["shape"]
         try:
             return o[1]["ret"] == "ok" and 0 < len(o[1]["regs"][1]["bins"]) < len(o[0]["regs"][0]["bins"])
         except Exception:
